@@ -1,5 +1,6 @@
 import DarkluaModel.Shared.Visitor
 import DarkluaModel.Rules.EvalApi
+import DarkluaModel.Rules.Utf8
 /-!
 # `convert_index_to_field` (`src/rules/convert_index_to_field.rs`)
 
@@ -85,5 +86,104 @@ def regionProcessor (api : EvalApi) : Processor Bool :=
 
 /-- `true`: some converted key has side effects (outside `H`) -/
 def outsideH (api : EvalApi) (b : Block) : Bool := (Visitor.runDefault (regionProcessor api) b false).2
+
+
+/-! ### local soundness
+
+`t[key]` ↦ `t.name` where `evaluate(key)` is the string `name`. For a sound evaluator, on keys
+that have no side effects and allocate nothing (hypothesis `H`: F6 is outside), every
+error-free evaluation of the original is an evaluation of the rewritten node with the same
+values and the same state — in expression, assignment-target and table-entry position.
+(`validIdentifier_bytes`: the UTF-8 encoding of the produced identifier is the key's byte string.) -/
+namespace Sound
+open DarkluaModel.Sem
+
+/-- the hypothesis on a converted key -/
+structure KeyOk (api : EvalApi) (good : Expr → Prop) (k : Expr) (name : String) : Prop where
+  conv : convertToField api k = some name
+  good : good k
+  pure : api.hasSideEffects k = false
+  noAlloc : noAlloc k = true
+
+/-- the identifier the rule produces spells exactly the key's bytes -/
+theorem validIdentifier_bytes {s : List UInt8} {name : String} (h : validIdentifier s = some name) :
+    name.toUTF8.toList = s := by
+  unfold validIdentifier at h
+  split at h
+  · rename_i hc
+    simp only [Bool.and_eq_true] at hc
+    simp only [Option.some.injEq] at h
+    subst h
+    exact Utf8.ascii_utf8 s hc.1.1.2
+  · simp at h
+
+theorem key_eval {api : EvalApi} {good : Expr → Prop} (hs : EvalSound api good) {k : Expr} {name : String}
+    (hk : KeyOk api good k name) {N : NumOps} (call : CallFn N) (ρ : ExtOracle N) (n : Nat) (env : Env N)
+    (σ σ' : State N) (vs : List (Val N)) (h : evalE call ρ n env k σ = .ok vs σ') :
+    σ' = σ ∧ first vs = strVal name := by
+  have hc := hk.conv
+  simp only [convertToField] at hc
+  cases hkind : api.kind k with
+  | string s =>
+    refine ⟨hs.pure k hk.good hk.pure hk.noAlloc call ρ n env σ σ' vs h, ?_⟩
+    rw [hkind] at hc
+    rw [hs.str k s hk.good hkind call ρ n env σ σ' vs h, strVal, validIdentifier_bytes hc]
+  | _ => simp [hkind] at hc
+
+theorem index_refines {api : EvalApi} {good : Expr → Prop} (hs : EvalSound api good) {p k : Expr} {name : String}
+    (hk : KeyOk api good k name) {N : NumOps} (call : CallFn N) (ρ : ExtOracle N) (n : Nat) (env : Env N)
+    (σ σ' : State N) (vs : List (Val N)) (h : evalE call ρ n env (.index p k) σ = .ok vs σ') :
+    evalE call ρ n env (convertIndex api (.index p k)) σ = .ok vs σ' := by
+  simp only [convertIndex, hk.conv, evalE] at h ⊢
+  cases hp : evalE call ρ n env p σ with
+  | timeout => simp [hp, Res.bind] at h
+  | err v σ1 => simp [hp, Res.bind] at h
+  | ok ps σ1 =>
+    simp only [hp, Res.bind] at h ⊢
+    cases hkv : evalE call ρ n env k σ1 with
+    | timeout => simp [hkv] at h
+    | err v σ2 => simp [hkv] at h
+    | ok ks σ2 =>
+      obtain ⟨rfl, hv⟩ := key_eval hs hk call ρ n env σ1 σ2 ks hkv
+      simpa [hkv, hv] using h
+
+theorem target_refines {api : EvalApi} {good : Expr → Prop} (hs : EvalSound api good) {p k : Expr} {name : String}
+    (hk : KeyOk api good k name) {N : NumOps} (call : CallFn N) (ρ : ExtOracle N) (n : Nat) (env : Env N)
+    (σ σ' : State N) (tg : Target N) (h : evalTarget call ρ n env (.index p k) σ = .ok tg σ') :
+    evalTarget call ρ n env (convertIndex api (.index p k)) σ = .ok tg σ' := by
+  simp only [convertIndex, hk.conv, evalTarget] at h ⊢
+  cases hp : evalE call ρ n env p σ with
+  | timeout => simp [hp, Res.bind] at h
+  | err v σ1 => simp [hp, Res.bind] at h
+  | ok ps σ1 =>
+    simp only [hp, Res.bind] at h ⊢
+    cases hkv : evalE call ρ n env k σ1 with
+    | timeout => simp [hkv] at h
+    | err v σ2 => simp [hkv] at h
+    | ok ks σ2 =>
+      obtain ⟨rfl, hv⟩ := key_eval hs hk call ρ n env σ1 σ2 ks hkv
+      simpa [hkv, hv] using h
+
+/-- one `[key] = value` entry at the head of a constructor -/
+theorem entry_refines {api : EvalApi} {good : Expr → Prop} (hs : EvalSound api good) {k v : Expr} {name : String}
+    (hk : KeyOk api good k name) {N : NumOps} (call : CallFn N) (ρ : ExtOracle N) (n : Nat) (env : Env N)
+    (t i : Nat) (rest : List Entry) (σ σ' : State N)
+    (h : evalEntries call ρ n env t i (.keyed k v :: rest) σ = .ok () σ') :
+    evalEntries call ρ n env t i (convertEntry api (.keyed k v) :: rest) σ = .ok () σ' := by
+  simp only [convertEntry, hk.conv, evalEntries] at h ⊢
+  cases hkv : evalE call ρ n env k σ with
+  | timeout => simp [hkv, Res.bind] at h
+  | err x σ1 => simp [hkv, Res.bind] at h
+  | ok ks σ1 =>
+    obtain ⟨rfl, hv⟩ := key_eval hs hk call ρ n env σ σ1 ks hkv
+    simp only [hkv, Res.bind] at h
+    cases hvv : evalE call ρ n env v σ1 with
+    | timeout => simp [hvv] at h
+    | err x σ2 => simp [hvv] at h
+    | ok ws σ2 =>
+      simp only [hvv, Res.bind, hv, strVal] at h ⊢
+      exact h
+
+end Sound
 
 end DarkluaModel.Rules.ConvertIndexToField
